@@ -35,13 +35,14 @@ import (
 //	LIN    <component> <seed> <threads> <ops>   short concurrent history, checked for linearizability
 //	STRESS <component> <seed> <threads> <ops>   long concurrent workload, race detection only
 //	EBMID                                       deterministic EventsBuffer scenario (Process callback blocks mid-push)
+//	POOLMID                                     deterministic SyncedPool.Flush vs writes through store handles (three stores, the second flush blocks)
 //	SNAPMID                                     deterministic Flushable.GetSnapshot vs Flush scenario (the parent's GetSnapshot blocks)
 //
 // LIN/STRESS/EBMID are executed by build/C28/c28stress, a separate binary built WITH THE RACE DETECTOR
 // (bin/c28_lockscan); this function only starts it and turns its output and the race reports into observation
 // tokens:  race=<0|1> [at=<frames>] [crash=1|hang=1] <tokens printed by c28stress>
 
-var c28Components = []string{"flushable", "lazy", "pool", "wlru", "sem", "buffer"}
+var c28Components = []string{"flushable", "lazy", "pool", "wlru", "sem", "buffer", "snap"}
 
 func c28Gen(r *rand.Rand, n int, tier string, emit func(input ...string)) {
 	for _, t := range c28Types() {
@@ -49,6 +50,7 @@ func c28Gen(r *rand.Rand, n int, tier string, emit func(input ...string)) {
 	}
 	emit("EBMID")
 	emit("SNAPMID")
+	emit("POOLMID")
 	for i := 0; i < n; i++ {
 		comp := c28Components[i%len(c28Components)]
 		seed := fmt.Sprint(r.Int63n(1 << 40))
@@ -84,6 +86,7 @@ func c28Types() []c28Type {
 		{"LazyFlushable", reflect.TypeOf(lazy)},
 		{"closeDropWrapped", reflect.TypeOf(wrapped)},
 		{"Snapshot", reflect.TypeOf(snap)},
+		{"flushableIterator", reflect.TypeOf(fl.NewIterator(nil, nil))},
 		{"SyncedPool", reflect.TypeOf(pool)},
 		{"Cache", reflect.TypeOf(cache)},
 		{"DataSemaphore", reflect.TypeOf(datasemaphore.New(dag.Metric{}, nil))},
@@ -175,6 +178,7 @@ type c28Server struct {
 }
 
 var c28Srv *c28Server
+var c28Failures = map[string]int{}
 
 func c28Start() *c28Server {
 	exe, _ := os.Executable()
@@ -265,6 +269,16 @@ func c28Run(in []string) []string {
 		vu.Stat("table")
 		return c28Table(in[1])
 	}
+	comp := ""
+	if len(in) > 1 {
+		comp = in[1]
+	}
+	if c28Failures[comp] >= 3 {
+		// the component already hung / crashed three times in this run (each costs up to 20 s): the remaining
+		// cases of it are not run; the driver treats them as indeterminate, the earlier ones are the violation
+		vu.Stat("skipped_after_failures")
+		return []string{"skipped=1"}
+	}
 	if c28Srv == nil {
 		c28Srv = c28Start()
 	}
@@ -308,6 +322,7 @@ func c28Run(in []string) []string {
 		vu.Stat("crash")
 	}
 	if gone || hung {
+		c28Failures[comp]++
 		c28Srv.stop()
 		c28Srv = nil
 	}
